@@ -267,6 +267,38 @@ func genInputs(r *vk.Rand, key, master string, n int) []hin {
 		add("cluster/binary-huge-map", append([]byte{k}, envelope([]byte{0x03, 0x00, 0xff, 0xff, 0xff, 0xff, 0x7f})...))
 	}
 	_ = canaryCh
+	// well-formed states (built through the real API, so they pass every decoder) whose events have odd shapes:
+	// empty / one-word / very long ssids, zero and own peer names, empty and huge keys, add-only, remove-only and both
+	oddSsids := []message.Ssid{{}, {1}, {1, 2}, make(message.Ssid, 300), {0xffffffff, 0xffffffff, 0xffffffff}}
+	oddPeers := []uint64{0, 1, 5, 0xffffffffffffffff}
+	oddN := 0
+	for _, ss := range oddSsids {
+		for _, pr := range oddPeers {
+			for mode := 0; mode < 3; mode++ {
+				oddN++
+				if oddN%3 != int(r.Intn(3)) && n < 2000 { // a third of them per run in the small tiers
+					continue
+				}
+				o := event.NewState("")
+				sub := &event.Subscription{Peer: pr, Conn: security.ID(oddN % 3), Ssid: ss, Channel: []byte(strings.Repeat("c/", oddN%4))}
+				con := &event.Connection{Peer: pr, Conn: security.ID(oddN % 3)}
+				bn := event.Ban(strings.Repeat("k", []int{0, 1, 32, 70000}[oddN%4]))
+				if mode != 1 {
+					o.Add(sub)
+					o.Add(con)
+					o.Add(&bn)
+				}
+				if mode != 0 {
+					o.Del(sub)
+					o.Del(con)
+					o.Del(&bn)
+				}
+				for _, k := range []byte{'G', 'B'} {
+					add("cluster/odd-event-state", append([]byte{k}, o.Encode()[0]...))
+				}
+			}
+		}
+	}
 	// frames addressed to the live canary subscriber, with normal and over-long bodies, and odd ids
 	add("cluster/frame-to-live-subscriber", nil) // placeholder replaced by the caller (needs the contract)
 	for q := 0; q < n*4/10; q++ {
